@@ -1,14 +1,16 @@
 import CheetahModel.Proofs.BmadxProofs
 import CheetahModel.Proofs.QuadFlow
 import CheetahModel.Proofs.DriftJacobian
+import CheetahModel.Proofs.QuadLinear
 import CheetahModel.Proofs.Conj
 /-!
 # C07 — Bmad-X tracking is an exact flow (drift), straight-line motion, TDC at zero voltage = drift
 
 Partial: the theorems cover the exact drift kernel, the `Drift` element including the coordinate
 conversions, the transverse deflecting cavity at zero voltage, and the quadrupole body (all six coordinates,
-either sign of `k1`, any `num_steps`; at the regularisation `eps = 0`, the code uses 2.2e-16).  Bend-body
-exactness and the Jacobian = linear-map statements are decided by the falsifier on the real code
+either sign of `k1`, any `num_steps`; at the regularisation `eps = 0`, the code uses 2.2e-16).  For on-momentum particles
+the quadrupole is shown to act transversally exactly like the linear map (hence equal transverse Jacobians).  Bend-body
+exactness and the remaining Jacobian = linear-map statements are decided by the falsifier on the real code
 (autograd Jacobians, piece composition, numerically integrated motion) and by the correspondence of
 the kernels with this model.
 -/
@@ -102,6 +104,32 @@ theorem drift_jacobian_is_linear_map (L E0 m : ℝ) (hm : 0 < m) (hE : m < E0) :
     simp [driftMap, driftLike, Mat7.get, Mat7.row, Vec7.get, Mat7.ofRows, row7]; norm_num
   · convert DriftJacobian.dtau_dpx L E0 m hm hE using 1
     simp [driftMap, driftLike, Mat7.get, Mat7.row, Vec7.get, Mat7.ofRows, row7]; norm_num
+
+/-- **Quadrupole, on-momentum particles.**  For every particle with `δ = 0` — any amplitude — the aligned Bmad-X
+quadrupole (`eps = 0`, either sign of `k1`, any `num_steps ≥ 1`) produces exactly the transverse coordinates of the
+linear `Quadrupole.transfer_map` and keeps `δ = 0`. -/
+theorem quad_onmomentum_is_linear_map (L k1 : ℝ) (n : ℕ) (x px y py tau E0 m : ℝ) (hm : 0 < m) (hE : m < E0)
+    (hk : k1 ≠ 0) :
+    let v : Vec7 ℝ := ⟨x, px, y, py, tau, 0, 1⟩
+    let out := (bmadxQuad L k1 0 0 0 (n + 1) 0 v E0 m).1
+    let lin := (quadMap L k1 0 0 0 E0 m).mulVec v
+    out.a0 = lin.a0 ∧ out.a1 = lin.a1 ∧ out.a2 = lin.a2 ∧ out.a3 = lin.a3 ∧ out.a5 = 0 :=
+  QuadLinear.quad_onmomentum L k1 n x px y py tau E0 m hm hE hk
+
+/-- … hence its transverse Jacobian is the linear map's, at every on-momentum point (entries of both planes shown:
+`∂x'/∂x`, `∂x'/∂px`, `∂px'/∂x`, `∂py'/∂y`) -/
+theorem quad_transverse_jacobian (L k1 : ℝ) (n : ℕ) (x px y py tau E0 m : ℝ) (hm : 0 < m) (hE : m < E0)
+    (hk : k1 ≠ 0) :
+    HasDerivAt (fun t => (bmadxQuad L k1 0 0 0 (n + 1) 0 ⟨t, px, y, py, tau, 0, 1⟩ E0 m).1.a0)
+      ((quadMap L k1 0 0 0 E0 m).get 0 0) x ∧
+    HasDerivAt (fun t => (bmadxQuad L k1 0 0 0 (n + 1) 0 ⟨x, t, y, py, tau, 0, 1⟩ E0 m).1.a0)
+      ((quadMap L k1 0 0 0 E0 m).get 0 1) px ∧
+    HasDerivAt (fun t => (bmadxQuad L k1 0 0 0 (n + 1) 0 ⟨t, px, y, py, tau, 0, 1⟩ E0 m).1.a1)
+      ((quadMap L k1 0 0 0 E0 m).get 1 0) x ∧
+    HasDerivAt (fun t => (bmadxQuad L k1 0 0 0 (n + 1) 0 ⟨x, px, t, py, tau, 0, 1⟩ E0 m).1.a3)
+      ((quadMap L k1 0 0 0 E0 m).get 3 2) y :=
+  ⟨QuadLinear.dx_dx L k1 n x px y py tau E0 m hm hE hk, QuadLinear.dx_dpx L k1 n x px y py tau E0 m hm hE hk,
+   QuadLinear.dpx_dx L k1 n x px y py tau E0 m hm hE hk, QuadLinear.dpy_dy L k1 n x px y py tau E0 m hm hE hk⟩
 
 /-- non-vacuity of the hypotheses: a real quadrupole strength and an on-momentum particle -/
 example : (2.5 : ℝ) ≠ 0 ∧ 0 < 1 + ({ x := 1e-3, px := 0, y := 0, py := 0, z := 0, pz := 0 } : BP ℝ).pz := by
